@@ -259,3 +259,15 @@ pub fn strategy() -> impl proptest::strategy::Strategy<Value = TcpEyesCase> {
     )
         .prop_map(|(cands, timeout, conc)| TcpEyesCase { cands, timeout, conc })
 }
+
+/// Cases in which the outcome hinges on the pacing: one to three candidates that hang (or one that is
+/// refused among them), then a live one, with room for one or two attempts at a time - the live
+/// candidate is reached only by the stagger timer, and whether that happens before the deadline
+/// depends on the delay being `timeout / n`.
+pub fn pacing_strategy() -> impl proptest::strategy::Strategy<Value = TcpEyesCase> {
+    use proptest::prelude::*;
+    (proptest::collection::vec(prop_oneof![4 => Just(2u8), 1 => Just(1u8)], 1..=3), prop_oneof![Just(12u8), Just(16u8)], prop_oneof![3 => Just(Some(1u8)), 1 => Just(Some(2u8)), 1 => Just(Some(0u8))]).prop_map(|(mut cands, timeout, conc)| {
+        cands.push(0);
+        TcpEyesCase { cands, timeout: Some(timeout), conc }
+    })
+}
